@@ -116,6 +116,17 @@ def install(ex, mod):
             res = smt.ite(smt.lt(x, y), -1, smt.ite(smt.lt(y, x), 1, res))
         return res
     reg("compare(unsigned long, unsigned long, char const*) const", compare_pnc)
+    def compare_c(ex, st, a):
+        # int compare(const char* s) const : lexicographic comparison of the whole string with the C string s
+        s_, lit = a
+        d = _data(ex, st, s_); n = ex.concretize(st, _size(ex, st, s_), "compare size")
+        m = _cstrlen(ex, st, lit)
+        res = 0 if n == m else (-1 if n < m else 1)
+        for i in reversed(range(min(n, m))):
+            x = smt.to_u(ex.load(st, Ptr(d.obj, smt.add(d.off, i)), I8), 8); y = smt.to_u(ex.load(st, Ptr(lit.obj, smt.add(lit.off, i)), I8), 8)
+            res = smt.ite(smt.lt(x, y), -1, smt.ite(smt.lt(y, x), 1, res))
+        return res
+    reg("compare(char const*) const", compare_c)
     def pluseq_cstr(ex, st, a):
         _append(ex, st, a[0], a[1], _cstrlen(ex, st, a[1])); return a[0]
     reg("operator+=(char const*)", pluseq_cstr); reg("append(char const*)", pluseq_cstr)
